@@ -125,12 +125,14 @@ def gen_euler(out, parts):
 
 # ====================================================================== TutteEmbedding.run
 def gen_run(out, parts, src, tree):
+    """Local names are learned from the statements (renaming a local is harmless); the eight set-up statements
+    between the gate and the scatter are recognised by shape, in any order that respects their dependencies."""
     fn = T.find_def(tree, "TutteEmbedding.run", TUTTE)
     parts.append(("TutteEmbedding.run", T.sha(src, fn)))
     b = T.body_nodoc(fn)
     if len(b) != 10:
         T.fail(TUTTE, fn, "run() has %d statements, 10 expected (gate, boundary, laplacian, free, border, LI, LB, U, V, scatter)" % len(b))
-    # 0: gate
+    # ---- gate (must come first)
     g = b[0]
     ok = (isinstance(g, ast.If) and not g.orelse and len(g.body) == 1 and isinstance(g.body[0], ast.Raise)
           and isinstance(g.test, ast.Compare) and len(g.test.ops) == 1 and type(g.test.ops[0]) in CMPZ
@@ -140,90 +142,113 @@ def gen_run(out, parts, src, tree):
         T.fail(TUTTE, g, "first statement is not `if euler_characteristic(self.mesh) <cmp> <int>: raise ...`")
     out.append("Definition gate_reject (chi : Z) : bool := %s."
                % (CMPZ[type(g.test.ops[0])] % ("chi", Ex(TUTTE, {}).z(g.test.comparators[0]))))
-    # 1: Ubnd,Vbnd = self._initialize_boundary(self._bnd_mode)
-    tgt, val = assign1(b[1], TUTTE)
-    if not (names(tgt) == ["Ubnd", "Vbnd"] and isinstance(val, ast.Call)
-            and T.dotted(val.func) == "self._initialize_boundary" and [T.dotted(a) for a in val.args] == ["self._bnd_mode"]
-            and not val.keywords):
-        T.fail(TUTTE, b[1], "not `Ubnd,Vbnd = self._initialize_boundary(self._bnd_mode)`")
-    # 2: lap = operators.laplacian(self.mesh, cotan=self._use_cotan)
-    tgt, val = assign1(b[2], TUTTE)
-    if not (names(tgt) == ["lap"] and isinstance(val, ast.Call) and T.dotted(val.func) == "operators.laplacian"
-            and [T.dotted(a) for a in val.args] == ["self.mesh"] and len(val.keywords) == 1
-            and val.keywords[0].arg == "cotan" and T.dotted(val.keywords[0].value) == "self._use_cotan"):
-        T.fail(TUTTE, b[2], "not `lap = operators.laplacian(self.mesh, cotan=self._use_cotan)`")
+    N = {}          # role -> local name
+    mats = {}       # local name -> (row selector name, col selector name)
+    solves = []     # (target, matrix, neg, dotmatrix, vector)
+
+    def full(x):
+        return isinstance(x, ast.Slice) and x.lower is None and x.upper is None and x.step is None
+
+    for st in b[1:9]:
+        if isinstance(st, ast.If):
+            # bndInds by mode
+            if not (len(st.body) == 1 and len(st.orelse) == 1 and isinstance(st.test, ast.Compare)
+                    and T.dotted(st.test.left) == "self._bnd_mode" and len(st.test.ops) == 1
+                    and isinstance(st.test.ops[0], ast.Eq) and is_mode(st.test.comparators[0], "CUSTOM")):
+                T.fail(TUTTE, st, "not `if self._bnd_mode == TutteEmbedding.BoundaryMode.CUSTOM: .. else: ..`")
+            tgt, val = assign1(st.body[0], TUTTE)
+            if not (isinstance(tgt, ast.Name) and T.dotted(val) == "self.mesh.boundary_vertices"):
+                T.fail(TUTTE, st.body[0], "custom branch is not `<bnd> = self.mesh.boundary_vertices`")
+            tgt2, val2 = assign1(st.orelse[0], TUTTE)
+            if not (isinstance(tgt2, ast.Tuple) and len(tgt2.elts) == 2 and T.dotted(tgt2.elts[0]) == tgt.id
+                    and isinstance(tgt2.elts[1], ast.Name) and isinstance(val2, ast.Call)
+                    and T.dotted(val2.func) == "extract_border_cycle"
+                    and [T.dotted(a) for a in val2.args] == ["self.mesh"] and not val2.keywords):
+                T.fail(TUTTE, st.orelse[0], "else branch is not `<bnd>, _ = extract_border_cycle(self.mesh)`")
+            if "bnd" in N:
+                T.fail(TUTTE, st, "border index list selected twice")
+            N["bnd"] = tgt.id
+            continue
+        tgt, val = assign1(st, TUTTE)
+        if isinstance(val, ast.Call) and T.dotted(val.func) == "self._initialize_boundary":
+            if not (isinstance(tgt, ast.Tuple) and len(tgt.elts) == 2 and all(isinstance(x, ast.Name) for x in tgt.elts)
+                    and [T.dotted(a) for a in val.args] == ["self._bnd_mode"] and not val.keywords and "ub" not in N):
+                T.fail(TUTTE, st, "not `Ubnd,Vbnd = self._initialize_boundary(self._bnd_mode)`")
+            N["ub"], N["vb"] = names(tgt)
+        elif isinstance(val, ast.Call) and T.dotted(val.func) == "operators.laplacian":
+            if not (isinstance(tgt, ast.Name) and [T.dotted(a) for a in val.args] == ["self.mesh"] and len(val.keywords) == 1
+                    and val.keywords[0].arg == "cotan" and T.dotted(val.keywords[0].value) == "self._use_cotan"
+                    and "lap" not in N):
+                T.fail(TUTTE, st, "not `lap = operators.laplacian(self.mesh, cotan=self._use_cotan)`")
+            N["lap"] = tgt.id
+        elif T.dotted(val) == "self.mesh.interior_vertices":
+            if not (isinstance(tgt, ast.Name) and "free" not in N):
+                T.fail(TUTTE, st, "not `freeInds = self.mesh.interior_vertices`")
+            N["free"] = tgt.id
+        elif isinstance(val, ast.Subscript):
+            ok = (isinstance(tgt, ast.Name) and isinstance(val.value, ast.Subscript) and "lap" in N
+                  and T.dotted(val.value.value) == N["lap"] and isinstance(val.slice, ast.Tuple)
+                  and isinstance(val.value.slice, ast.Tuple) and len(val.slice.elts) == 2 and len(val.value.slice.elts) == 2)
+            if not ok:
+                T.fail(TUTTE, st, "not `<M> = lap[<rows>, :][:, <cols>]`")
+            r, c1 = val.value.slice.elts
+            c0, c = val.slice.elts
+            if not (full(c1) and full(c0) and isinstance(r, ast.Name) and isinstance(c, ast.Name)):
+                T.fail(TUTTE, st, "not `lap[<rows>, :][:, <cols>]`")
+            mats[tgt.id] = (r.id, c.id)
+        elif isinstance(val, ast.Call) and T.dotted(val.func) == "linalg.spsolve":
+            if not (isinstance(tgt, ast.Name) and len(val.args) == 2 and not val.keywords and isinstance(val.args[0], ast.Name)):
+                T.fail(TUTTE, st, "not `<X> = linalg.spsolve(<M>, <rhs>)`")
+            rhs = val.args[1]
+            neg = False
+            if isinstance(rhs, ast.UnaryOp) and isinstance(rhs.op, ast.USub):
+                neg, rhs = True, rhs.operand
+            if not (isinstance(rhs, ast.Call) and isinstance(rhs.func, ast.Attribute) and rhs.func.attr == "dot"
+                    and isinstance(rhs.func.value, ast.Name) and len(rhs.args) == 1 and not rhs.keywords
+                    and isinstance(rhs.args[0], ast.Name)):
+                T.fail(TUTTE, st, "right-hand side is not `[-]<M>.dot(<vector>)`")
+            solves.append((tgt.id, val.args[0].id, neg, rhs.func.value.id, rhs.args[0].id))
+        else:
+            T.fail(TUTTE, st, "unrecognised statement in run()")
+    for role in ("ub", "vb", "lap", "free", "bnd"):
+        if role not in N:
+            T.fail(TUTTE, fn, "run() never defines the %s" % role)
+    if len(mats) != 2 or len(solves) != 2:
+        T.fail(TUTTE, fn, "run() does not build two sub-matrices and solve two systems")
+    if solves[0][1] != solves[1][1] or solves[0][3] != solves[1][3] or solves[0][1] == solves[0][3]:
+        T.fail(TUTTE, fn, "the two solves do not use the same (system matrix, border matrix) pair")
+    LIn, LBn = solves[0][1], solves[0][3]
+    if LIn not in mats or LBn not in mats:
+        T.fail(TUTTE, fn, "spsolve uses a matrix that is not one of the two sub-matrices")
+    selmap = {N["free"]: "SFree", N["bnd"]: "SBnd"}
+    for m in (LIn, LBn):
+        if mats[m][0] not in selmap or mats[m][1] not in selmap:
+            T.fail(TUTTE, fn, "row/column selector of %s is not the interior / border index list" % m)
+    vecmap = {N["ub"]: "CUb", N["vb"]: "CVb"}
+    for sv in solves:
+        if sv[4] not in vecmap:
+            T.fail(TUTTE, fn, "the right-hand side does not use the border coordinates")
+    # roles of the two solutions: the one fed by the first border coordinate is U, unless both use the same data
+    if vecmap[solves[0][4]] == "CVb" and vecmap[solves[1][4]] == "CUb":
+        solves = [solves[1], solves[0]]
+    N["u"], N["v"] = solves[0][0], solves[1][0]
     out.append("Definition lap_cotan_flag (use_cotan : bool) : bool := use_cotan.")
-    # 3: freeInds
-    tgt, val = assign1(b[3], TUTTE)
-    if not (names(tgt) == ["freeInds"] and T.dotted(val) == "self.mesh.interior_vertices"):
-        T.fail(TUTTE, b[3], "not `freeInds = self.mesh.interior_vertices`")
-    # 4: bndInds by mode
-    s = b[4]
-    if not (isinstance(s, ast.If) and len(s.body) == 1 and len(s.orelse) == 1):
-        T.fail(TUTTE, s, "bndInds selection is not a two-way if")
-    if not (isinstance(s.test, ast.Compare) and T.dotted(s.test.left) == "self._bnd_mode" and len(s.test.ops) == 1
-            and isinstance(s.test.ops[0], ast.Eq) and is_mode(s.test.comparators[0], "CUSTOM")):
-        T.fail(TUTTE, s.test, "test is not `self._bnd_mode == TutteEmbedding.BoundaryMode.CUSTOM`")
-    tgt, val = assign1(s.body[0], TUTTE)
-    if not (names(tgt) == ["bndInds"] and T.dotted(val) == "self.mesh.boundary_vertices"):
-        T.fail(TUTTE, s.body[0], "custom branch is not `bndInds = self.mesh.boundary_vertices`")
-    tgt, val = assign1(s.orelse[0], TUTTE)
-    if not (names(tgt) == ["bndInds", "_"] and isinstance(val, ast.Call) and T.dotted(val.func) == "extract_border_cycle"
-            and [T.dotted(a) for a in val.args] == ["self.mesh"] and not val.keywords):
-        T.fail(TUTTE, s.orelse[0], "else branch is not `bndInds, _ = extract_border_cycle(self.mesh)`")
     out.append("(* true: the border index list is the border CYCLE; false: mesh.boundary_vertices as it comes *)")
     out.append("Definition bnd_is_cycle (custom : bool) : bool := negb custom.")
-
-    # 5,6: LI / LB = lap[R, :][:, C]
-    def sel(st, name):
-        tgt, val = assign1(st, TUTTE)
-        ok = (names(tgt) == [name] and isinstance(val, ast.Subscript) and isinstance(val.value, ast.Subscript)
-              and T.dotted(val.value.value) == "lap" and isinstance(val.slice, ast.Tuple) and isinstance(val.value.slice, ast.Tuple)
-              and len(val.slice.elts) == 2 and len(val.value.slice.elts) == 2)
-        if not ok:
-            T.fail(TUTTE, st, "not `%s = lap[<rows>, :][:, <cols>]`" % name)
-        r, c1 = val.value.slice.elts
-        c0, c = val.slice.elts
-
-        def full(x):
-            return isinstance(x, ast.Slice) and x.lower is None and x.upper is None and x.step is None
-        if not (full(c1) and full(c0)):
-            T.fail(TUTTE, st, "not `lap[<rows>, :][:, <cols>]`")
-        m = {"freeInds": "SFree", "bndInds": "SBnd"}
-        if T.dotted(r) not in m or T.dotted(c) not in m:
-            T.fail(TUTTE, st, "row/column selector is not freeInds/bndInds")
-        return m[T.dotted(r)], m[T.dotted(c)]
-    li = sel(b[5], "LI")
-    lb = sel(b[6], "LB")
     out.append("Inductive sel := SFree | SBnd.")
-    out.append("Definition LI_rows := %s. Definition LI_cols := %s." % li)
-    out.append("Definition LB_rows := %s. Definition LB_cols := %s." % lb)
-
-    # 7,8: U = linalg.spsolve(LI, -LB.dot(Ubnd)) ; V = ... Vbnd
-    def solve(st, name):
-        tgt, val = assign1(st, TUTTE)
-        if not (names(tgt) == [name] and isinstance(val, ast.Call) and T.dotted(val.func) == "linalg.spsolve"
-                and len(val.args) == 2 and not val.keywords and T.dotted(val.args[0]) == "LI"):
-            T.fail(TUTTE, st, "not `%s = linalg.spsolve(LI, <rhs>)`" % name)
-        rhs = val.args[1]
-        neg = False
-        if isinstance(rhs, ast.UnaryOp) and isinstance(rhs.op, ast.USub):
-            neg, rhs = True, rhs.operand
-        if not (isinstance(rhs, ast.Call) and T.dotted(rhs.func) == "LB.dot" and len(rhs.args) == 1 and not rhs.keywords
-                and T.dotted(rhs.args[0]) in ("Ubnd", "Vbnd")):
-            T.fail(TUTTE, st, "right-hand side is not `[-]LB.dot(Ubnd|Vbnd)`")
-        return neg, {"Ubnd": "CUb", "Vbnd": "CVb"}[T.dotted(rhs.args[0])]
-    nu, cu = solve(b[7], "U")
-    nvv, cv = solve(b[8], "V")
+    out.append("(* LI = the system matrix handed to spsolve, LB = the matrix applied to the border coordinates *)")
+    out.append("Definition LI_rows := %s. Definition LI_cols := %s." % (selmap[mats[LIn][0]], selmap[mats[LIn][1]]))
+    out.append("Definition LB_rows := %s. Definition LB_cols := %s." % (selmap[mats[LBn][0]], selmap[mats[LBn][1]]))
     out.append("Inductive comp := CU | CV | CUb | CVb.   (* U, V (solutions), Ubnd, Vbnd (border data) *)")
     out.append("(* right-hand sides of the two solves: spsolve(LI, rhs_U (LB . <U_border_data>)) etc. *)")
-    out.append("Definition rhs_U (x : Q) : Q := %s. Definition U_border_data := %s." % ("- x" if nu else "x", cu))
-    out.append("Definition rhs_V (x : Q) : Q := %s. Definition V_border_data := %s." % ("- x" if nvv else "x", cv))
+    out.append("Definition rhs_U (x : Q) : Q := %s. Definition U_border_data := %s." % ("- x" if solves[0][2] else "x", vecmap[solves[0][4]]))
+    out.append("Definition rhs_V (x : Q) : Q := %s. Definition V_border_data := %s." % ("- x" if solves[1][2] else "x", vecmap[solves[1][4]]))
 
-    # 9: scatter
+    # ---- scatter (last)
     s = b[9]
     if not (isinstance(s, ast.If) and T.dotted(s.test) == "self.save_on_corners" and len(s.body) == 3 and len(s.orelse) == 3):
         T.fail(TUTTE, s, "scatter is not `if self.save_on_corners: <create; loop; loop> else: <create; loop; loop>`")
+    compmap = {N["u"]: "CU", N["v"]: "CV", N["ub"]: "CUb", N["vb"]: "CVb"}
 
     def create(st, container):
         tgt, val = assign1(st, TUTTE)
@@ -237,13 +262,13 @@ def gen_run(out, parts, src, tree):
     def loop(st, corners):
         """for i,v in enumerate(<inds>): [for c in vertex_to_corners(v):] self.uvs[key] = Vec(A[i], B[i])"""
         ok = (isinstance(st, ast.For) and not st.orelse and isinstance(st.iter, ast.Call) and T.dotted(st.iter.func) == "enumerate"
-              and len(st.iter.args) == 1 and names(st.target) and len(names(st.target)) == 2 and len(st.body) == 1)
+              and len(st.iter.args) == 1 and isinstance(st.target, ast.Tuple) and len(st.target.elts) == 2 and len(st.body) == 1)
         if not ok:
             T.fail(TUTTE, st, "scatter loop is not `for i,v in enumerate(<inds>)`")
         iv, vv = names(st.target)
-        inds = {"freeInds": "SFree", "bndInds": "SBnd"}.get(T.dotted(st.iter.args[0]))
+        inds = selmap.get(T.dotted(st.iter.args[0]))
         if inds is None:
-            T.fail(TUTTE, st, "scatter loop does not enumerate freeInds/bndInds")
+            T.fail(TUTTE, st, "scatter loop does not enumerate the interior / border index list")
         inner = st.body[0]
         key = vv
         if corners:
@@ -261,9 +286,9 @@ def gen_run(out, parts, src, tree):
             T.fail(TUTTE, inner, "scatter statement is not `self.uvs[%s] = Vec(<A>[i], <B>[i])`" % key)
         comps = []
         for a in val.args:
-            if not (isinstance(a, ast.Subscript) and T.dotted(a.slice) == iv and T.dotted(a.value) in ("U", "V", "Ubnd", "Vbnd")):
+            if not (isinstance(a, ast.Subscript) and T.dotted(a.slice) == iv and T.dotted(a.value) in compmap):
                 T.fail(TUTTE, a, "scatter value is not <U|V|Ubnd|Vbnd>[i]")
-            comps.append({"U": "CU", "V": "CV", "Ubnd": "CUb", "Vbnd": "CVb"}[T.dotted(a.value)])
+            comps.append(compmap[T.dotted(a.value)])
         return "(%s, %s, %s)" % (inds, comps[0], comps[1])
     create(s.body[0], "face_corners")
     create(s.orelse[0], "vertices")
